@@ -144,6 +144,8 @@ def run_fork(case):
         code = 0
         try:
             os.close(r)
+            import gc
+            gc.disable()        # a full collection in this short-lived copy would write to (= copy) the whole inherited heap
             data = json.dumps(compute(case)).encode()
             off = 0
             while off < len(data):
@@ -233,10 +235,11 @@ def check_fast(case, stats=None):
             probs.append((part + ":nonfinite", "%s: non-finite entries" % tag))
         bound = FACTOR * tol * max(1.0, r["amax"])
         if stats is not None:
-            k = "fast:err/tol:%s:%s" % (which, r["stop"])
+            k = "fast:err/tol:%s:%s:%s" % (which, r["stop"], "within-bound" if r["err"] <= bound else "VIOLATING")
             stats[k] = max(stats.get(k, 0.0), r["err"] / (tol * max(1.0, r["amax"])))
         if not (r["err"] <= bound):
-            probs.append(("%s:inaccurate:%s" % (part, r["stop"]),
+            cid = hashlib.sha1(json.dumps([case["which"], case["axes"], case["geo"], tol], sort_keys=True).encode()).hexdigest()[:8]
+            probs.append(("%s:inaccurate:%s:%s" % (part, r["stop"], cid),
                           "%s: max entrywise deviation from the Gauss assembler %.3g > %g * tol * max(1, max|A|) = %.3g "
                           "(max|A| = %.3g, ACA stop reason: %s)" % (tag, r["err"], FACTOR, bound, r["amax"], r["stop"])))
     seen, out = set(), []
